@@ -876,10 +876,26 @@ func splitInlineBox(context *layoutContext, box_ Box, positionX, maxX, bottomSpa
 			// TODO: we should take care of children added into absoluteBoxes,
 			// fixedBoxes and other lists.
 			availableWidth -= endSpacing
+			wholeChild := newChild
 
 			v := splitInlineLevel(context, child_, positionX, availableWidth, bottomSpace, skipStack,
 				containingBlock, absoluteBoxes, fixedBoxes, linePlaceholders, &childWaitingFloats, lineChildren)
 			newChild, resumeAt, preserved, first, last, newFloatWidths = v.newBox, v.resumeAt, v.preservedLineBreak, v.firstLetter, v.lastLetter, v.floatWidths
+
+			if resumeAt != nil && wholeChild != nil {
+				// The child fits, but not with the end spacing after it: it is
+				// split, and what stays on this line is not followed by the end
+				// spacing. Break it at its last possible breaking point instead
+				// of the last one before availableWidth.
+				wholeEnd := wholeChild.Box().PositionX + wholeChild.Box().MarginWidth() - trailingWhitespaceSize(context, wholeChild)
+				if lastBreak := pr.Min(wholeEnd-1, maxX); lastBreak > availableWidth {
+					v = splitInlineLevel(context, child_, positionX, lastBreak, bottomSpace, skipStack,
+						containingBlock, absoluteBoxes, fixedBoxes, linePlaceholders, &childWaitingFloats, lineChildren)
+					if v.resumeAt != nil {
+						newChild, resumeAt, preserved, first, last, newFloatWidths = v.newBox, v.resumeAt, v.preservedLineBreak, v.firstLetter, v.lastLetter, v.floatWidths
+					}
+				}
+			}
 		}
 
 		skipStack = nil
